@@ -107,6 +107,80 @@ K({
     "trusted": [],
 })
 
+SUBST = "chalk-ir/src/fold/subst.rs"
+K({
+    "id": "K2S",
+    "title": "ir_subst_leaf: Subst::fold_free_var_{ty,lifetime}, outer-variable branch (chalk-ir/src/fold/subst.rs)",
+    "crate": "chalk-ir",
+    "complete": True,
+    "bound": None,
+    "mods": [{"into": SUBST, "harness": "chalk_ir/k2_subst.rs", "name": "verif_k2s"}],
+    "targets": [
+        {"file": SUBST, "within": r"^impl<I: Interner> TypeFolder<I> for Subst<'_, I>$", "fn": "fold_free_var_ty", "path": "Subst::fold_free_var_ty",
+         "clauses": ["variable of an enclosing binder (depth d >= 1) -> same index, depth d - 1 + outer_binder"]},
+        {"file": SUBST, "within": r"^impl<I: Interner> TypeFolder<I> for Subst<'_, I>$", "fn": "fold_free_var_lifetime", "path": "Subst::fold_free_var_lifetime",
+         "clauses": ["variable of an enclosing binder (depth d >= 1) -> same index, depth d - 1 + outer_binder"]},
+    ],
+    "assumptions": ["K2S: the `parameters[index]` branch (parameter shifted in through the generic fold driver) is NOT covered (CBMC does not finish)"],
+    "trusted": [],
+})
+
+# --------------------------------------------------------------------------- K4
+K({
+    "id": "K4",
+    "title": "ir_flags: TyKind::compute_flags and the Lifetime/GenericArg/AliasTy/Substitution compute_flags helpers; intern_ty stores the result",
+    "crate": "chalk-ir",
+    "complete": False,
+    "bound": "substitutions <= 2 arguments, dyn bounds <= 1 where-clause; complete in the 16-bit flag domain of every child and in every enum variant",
+    "mods": [{"into": LIB, "harness": "chalk_ir/k4_flags.rs", "name": "verif_k4"}],
+    "targets": [
+        {"file": LIB, "within": r"^impl<I: Interner> TyKind<I>$", "fn": "compute_flags", "path": "TyKind::compute_flags",
+         "clauses": ["compute_flags(kind) & OCC == local(kind) | U flags(child types) & OCC | U lt_flags(lifetimes) | U ct_flags(consts), for every TyKind variant"]},
+        {"file": LIB, "within": r"^impl<I: Interner> Lifetime<I>$", "fn": "compute_flags", "path": "Lifetime::compute_flags", "clauses": ["table per LifetimeData variant"]},
+        {"file": LIB, "within": r"^impl<I: Interner> GenericArg<I>$", "fn": "compute_flags", "path": "GenericArg::compute_flags", "clauses": ["type: cached flags; lifetime: lt_flags; const: flags(ty) | ct_flags(value)"]},
+        {"file": LIB, "within": r"^impl<I: Interner> AliasTy<I>$", "fn": "compute_flags", "path": "AliasTy::compute_flags", "clauses": ["HAS_TY_PROJECTION / HAS_TY_OPAQUE | substitution flags"]},
+        {"file": LIB, "within": r"^impl<I: Interner> Substitution<I>$", "fn": "compute_flags", "path": "Substitution::compute_flags", "clauses": ["union over the arguments"]},
+    ],
+    "assumptions": [
+        "K4: every TyData is created through Interner::intern_ty (public fields allow other routes for other interners); intern_ty of VerifIr has the same text as ChalkIr's",
+        "K4: the rigid forms TyKind::AssociatedType / TyKind::OpaqueType are applications (their flags are those of their arguments); HAS_TY_PROJECTION / HAS_TY_OPAQUE report AliasTy occurrences",
+        "K4: STILL_FURTHER_SPECIALIZABLE is masked out (the property does not speak about it)",
+    ],
+    "trusted": [],
+})
+
+# ----------------------------------------------------------------------- K6, K7
+K({
+    "id": "K6",
+    "title": "ir_could_match: CouldMatch::could_match / MatchZipper::zip_tys (chalk-ir/src/could_match.rs)",
+    "crate": "chalk-ir",
+    "complete": False,
+    "bound": "every rigid head kind x every head kind, <= 2 children, children are leaves (7 leaf kinds); ids in {0,1}",
+    "mods": [{"into": "chalk-ir/src/could_match.rs", "harness": "chalk_ir/k6_could_match.rs", "name": "verif_k6"}],
+    "targets": [
+        {"file": "chalk-ir/src/could_match.rs", "fn": "could_match", "path": "CouldMatch::could_match (MatchZipper::zip_tys)",
+         "clauses": ["could_match(a,b) == false ==> a and b have no common instance (oracle: first-order unifiability of the shapes)", "symmetric"]},
+    ],
+    "assumptions": ["K6: lifting from the bounded shapes to all types is by the child-wise structure of the filter (a child-wise conservative filter is conservative) — induction not machine-checked",
+                    "K6: impls_for_trait / build_table / solve_from_clauses only call could_match (retain); checked by reading, not by proof"],
+    "trusted": [],
+    "harness_timeout": {"quick": 600, "thorough": 900},
+})
+K({
+    "id": "K7",
+    "title": "ir_zip_substs: Zipper::zip_substs default method (chalk-ir/src/zip.rs)",
+    "crate": "chalk-ir",
+    "complete": False,
+    "bound": "<= 3 arguments",
+    "mods": [{"into": "chalk-ir/src/zip.rs", "harness": "chalk_ir/k7_zip_substs.rs", "name": "verif_k7"}],
+    "targets": [
+        {"file": "chalk-ir/src/zip.rs", "fn": "zip_substs", "path": "Zipper::zip_substs",
+         "clauses": ["position i related at ambient.xform(variances[i]) (Invariant if none), in order, once", "stops at the first error and returns it"]},
+    ],
+    "assumptions": [],
+    "trusted": [],
+})
+
 # --------------------------------------------------------------------------- K5
 INPLACE = "chalk-ir/src/fold/in_place.rs"
 K({
@@ -179,6 +253,80 @@ K({
     "trusted": ["petgraph::Graph"],
 })
 KANI_UNITS["K13"]["applicable_if"] = {"file": COH, "within": r"^impl<I: Interner> SpecializationPriorities<I>$", "fn": "insert", "sig_regex": r"->\s*bool"}
+
+# ------------------------------------------------------------------ K8, K9, K10
+UCANON = "chalk-solve/src/infer/ucanonicalize.rs"
+K({
+    "id": "K8",
+    "title": "solve_universe_map: UniverseMap::new, UniverseMapExt::{add, map_universe_to_canonical, map_universe_from_canonical}",
+    "crate": "chalk-solve", "tracing_stub": True,
+    "complete": False,
+    "bound": {"quick": "<= 2 universes added (vector length <= 3); universe values fully symbolic", "thorough": "<= 4 universes added (length <= 5)"},
+    "mods": [{"into": UCANON, "harness": "chalk_solve/k8_universe_map.rs", "name": "verif_k8"}],
+    "targets": [
+        {"file": UCANON, "within": r"^impl UniverseMapExt for UniverseMap$", "fn": "add", "path": "UniverseMapExt::add",
+         "clauses": ["keeps `universes` strictly increasing and rooted; adds exactly the given universe"]},
+        {"file": UCANON, "within": r"^impl UniverseMapExt for UniverseMap$", "fn": "map_universe_to_canonical", "path": "UniverseMapExt::map_universe_to_canonical",
+         "clauses": ["Some <=> member; result < len; strictly monotone and injective on members"]},
+        {"file": UCANON, "within": r"^impl UniverseMapExt for UniverseMap$", "fn": "map_universe_from_canonical", "path": "UniverseMapExt::map_universe_from_canonical",
+         "clauses": ["inverse of to_canonical below len; above every member and strictly monotone from len on (pre: no overflow)"]},
+    ],
+    "assumptions": ["K8: slice::binary_search / Vec::insert as compiled by Kani"],
+    "trusted": [],
+})
+K({
+    "id": "K9",
+    "title": "solve_infer_value: <InferenceValue as UnifyValue>::unify_values",
+    "crate": "chalk-solve", "tracing_stub": True,
+    "complete": True,
+    "bound": None,
+    "mods": [{"into": "chalk-solve/src/infer/var.rs", "harness": "chalk_solve/k9_infer_value.rs", "name": "verif_k9"}],
+    "targets": [
+        {"file": "chalk-solve/src/infer/var.rs", "within": r"^impl<I: Interner> UnifyValue for InferenceValue<I>$", "fn": "unify_values", "path": "InferenceValue::unify_values",
+         "clauses": ["pre: not both bound", "Unbound,Unbound -> Unbound(min universe); bound wins; symmetric"]},
+    ],
+    "assumptions": [],
+    "trusted": [],
+})
+CANON = "chalk-solve/src/infer/canonicalize.rs"
+K({
+    "id": "K10",
+    "title": "solve_canonicalizer_add: Canonicalizer::add and the unbound leaf of Canonicalizer::fold_inference_ty",
+    "crate": "chalk-solve", "tracing_stub": True,
+    "complete": False,
+    "bound": "3 inference variables, <= 3 occurrences, one unification",
+    "mods": [{"into": CANON, "harness": "chalk_solve/k10_canonicalizer.rs", "name": "verif_k10"}],
+    "targets": [
+        {"file": CANON, "within": r"^impl<'q, I: Interner> Canonicalizer<'q, I>$", "fn": "add", "path": "Canonicalizer::add",
+         "clauses": ["returns index of first occurrence; appends iff absent; order kept; idempotent; max_universe >= universe of the variable"]},
+        {"file": CANON, "fn": "fold_inference_ty", "path": "Canonicalizer::fold_inference_ty (unbound branch)",
+         "clauses": ["unbound var under ob binders -> BoundVar ^ob.(index of its union-find root); unified unknowns share the index"]},
+    ],
+    "assumptions": ["K10: ena union-find as compiled by Kani; bound-variable branches (which recurse through the folder) not covered"],
+    "trusted": ["ena"],
+    "harness_timeout": {"quick": 600, "thorough": 900},
+})
+
+# -------------------------------------------------------------------------- K11
+RSTACK = "chalk-recursive/src/fixed_point/stack.rs"
+K({
+    "id": "K11",
+    "title": "rec_stack: Stack::{new, push, pop, mixed_inductive_coinductive_cycle_from}, StackEntry::{flag_cycle, read_and_reset_cycle_flag}",
+    "crate": "chalk-recursive", "tracing_stub": True,
+    "complete": False,
+    "bound": {"quick": "<= 4 stack entries; overflow_depth symbolic", "thorough": "<= 6 stack entries"},
+    "mods": [{"into": RSTACK, "harness": "chalk_recursive/k11_stack.rs", "name": "verif_k11"}],
+    "targets": [
+        {"file": RSTACK, "within": r"^impl Stack$", "fn": "push", "path": "Stack::push",
+         "clauses": ["pre: len < overflow_depth (at the limit the call aborts)", "post: len' == len+1 <= overflow_depth; new entry {c, cycle:false}; older entries untouched"]},
+        {"file": RSTACK, "within": r"^impl Stack$", "fn": "pop", "path": "Stack::pop", "clauses": ["pre: argument is the top; post: len' == len-1"]},
+        {"file": RSTACK, "within": r"^impl Stack$", "fn": "mixed_inductive_coinductive_cycle_from", "path": "Stack::mixed_inductive_coinductive_cycle_from",
+         "clauses": ["== exists coinductive in [d..] && exists inductive in [d..]"]},
+        {"file": RSTACK, "within": r"^impl StackEntry$", "fn": "read_and_reset_cycle_flag", "path": "StackEntry::read_and_reset_cycle_flag", "clauses": ["returns old flag, leaves false"]},
+    ],
+    "assumptions": ["K11: Kani aborts on panic, so 'push at the limit panics' is checked with kani::should_panic"],
+    "trusted": [],
+})
 
 # --------------------------------------------------------------------------- V1
 V({
@@ -257,6 +405,29 @@ V({
         "V2 (symmetry lemma): two trivially-true solutions of one query are equal",
     ],
     "trusted": [],
+})
+
+# --------------------------------------------------------------------------- V0
+V({
+    "id": "V0",
+    "title": "flags_induction: structural-induction lemma lifting the one-level flag contract (K4) to whole types",
+    "template": "v0_flags_induction.rs",
+    "assumptions": ["V0: pure lemma over an abstract finitely-branching tree; it is connected to the code only through K4's one-level contract"],
+    "trusted": [],
+})
+
+# -------------------------------------------------------------------------- V11
+V({
+    "id": "V11",
+    "title": "builtin_dispatch: add_sized_program_clauses, add_copy_program_clauses",
+    "template": "v11_builtin.rs",
+    "assumptions": [
+        "V11: callee contracts (not verified): push_adt_sized_conditions pushes the last-field condition, push_tuple_sized_conditions / push_tuple_copy_conditions the tuple conditions, needs_impl_for_tys one clause requiring the trait for exactly the given types, ClauseBuilder::push_fact the unconditional clause (ghost log)",
+        "V11: std::iter::once / Option::into_iter yield exactly their argument (assume_specification)",
+        "V11: the bound variable indexes an existing binder (binders.at), caller's obligation",
+        "V11: the oracle tables (sized_rule / copy_rule) are transcribed from the Rust reference; explicit library impls and how they combine with built-in clauses are the solver's business",
+    ],
+    "trusted": ["chalk-solve builtin_traits helpers (needs_impl_for_tys, last_field_of_struct)"],
 })
 
 # ===========================================================================
